@@ -101,12 +101,23 @@ def make_case(tier, seed, index):
     # a fraction characteristic used for initialisation (denominator must be in the databook)
     if mode != "one-free" and rng.random() < 0.4 and len(members_pool) >= 2:
         den = "alive"
-        total["db"] = True
-        if "alive" not in entered and rng.random() < 0.7:
-            total["setup"] = 1
-            entered.append("alive")
-        elif "alive" not in entered:
-            total["setup"] = 0
+        den_cands = [c for c in ords if all(truth[pop][c] > 0 for pop in pops)]
+        if den_cands and rng.random() < 0.35:
+            # the denominator is a compartment (allowed by the framework rules): it has to be in the databook
+            den = den_cands[int(rng.integers(0, len(den_cands)))]
+            for c in spec["comps"]:
+                if c["name"] == den:
+                    c["db"] = True
+                    if den not in entered:
+                        c["setup"] = 1
+                        entered.append(den)
+        else:
+            total["db"] = True
+            if "alive" not in entered and rng.random() < 0.7:
+                total["setup"] = 1
+                entered.append("alive")
+            elif "alive" not in entered:
+                total["setup"] = 0
         num = [str(x) for x in rng.permutation(members_pool)[: int(rng.integers(1, len(members_pool)))]]
         characs.append({"name": "frac", "components": num, "denominator": den, "db": True, "setup": 1})
         flat["frac"] = num
@@ -146,7 +157,7 @@ def make_case(tier, seed, index):
                 v = sum(truth[pop][m] for m in flat[q])
                 ch = [c for c in characs if c["name"] == q][0]
                 if ch["denominator"]:
-                    d = sum(truth[pop][m] for m in flat[ch["denominator"]])
+                    d = sum(truth[pop][m] for m in flat.get(ch["denominator"], [ch["denominator"]]))
                     v = v / d if d > 0 else 0.0
             else:
                 v = truth[pop][q]
